@@ -177,6 +177,23 @@ Theorem C09_bdn_aggregate_verifies :
 Proof. exact bdn_aggregate_verifies. Qed.
 Print Assumptions C09_bdn_aggregate_verifies.
 
+(* the same when several mask objects (NewMask results and clones, which share
+   the precomputed coefficients) are used side by side in any interleaving:
+   every object of the pool aggregates and verifies, any number of times -
+   aggregation is a function of the mask and writes nothing *)
+Theorem C09_bdn_pool_verifies :
+  forall q, prime q ->
+  forall Hcoef : list (zq q) -> list (zq q),
+    (forall l, length (Hcoef l) = length l) ->
+    forall (g1 : bool) (pubs : list (zq q)) (steps : list (pstep q)) (m : bmask q) (h : zq q),
+      In m (pool_run q Hcoef pubs steps) ->
+      let a := agg_secret q pubs (bm_bits q m) (Hcoef pubs) in
+      bdn_agg_pubs q m = ROk a /\
+      bdn_agg_sigs q m (honest_sigs q pubs (bm_bits q m) h) = ROk (bls_sign a h) /\
+      bls_verify g1 a h (Some (bls_sign a h)) = true.
+Proof. exact bdn_pool_verifies. Qed.
+Print Assumptions C09_bdn_pool_verifies.
+
 (* under which mask and message an aggregate verifies: exactly a*h = a'*h' *)
 Theorem C09_bdn_accept_iff :
   forall q, prime q ->
